@@ -34,7 +34,8 @@ def run(pid, root=None):
         v = {(o.rule, o.key) for o in r.obs if not o.ok and (pid, o.rule, o.key) not in known}
         floors = [(x, c, f) for x, c, f in r.floors if c < f]
         new = sorted(v - b)
-        out.append((name, 'silent' if not new and not floors else 'noisy', '%r %r' % (new[:3], floors)))
+        newdef = [d for d in getattr(r, 'deferred', []) if d not in getattr(base, 'deferred', [])]
+        out.append((name, 'silent' if not new and not floors and not newdef else 'noisy', '%r %r %r' % (new[:3], floors, newdef[:1])))
     return out
 
 
